@@ -73,6 +73,11 @@ class Identifier(Node):
         # But:      '@media print'  results in [['@media', ' ', 'print']]
         #
         def replace_variables(tokens, scope):
+            if scope is None:
+                for t in tokens:
+                    if utility.is_variable(t) and t not in reserved.tokens:
+                        raise SyntaxError('Variable `%s` not allowed here' % t)
+                return tokens
             return [
                 scope.swap(t)
                 if (utility.is_variable(t) and not t in reserved.tokens) else t
